@@ -36,10 +36,13 @@ func genC01(c *Ctx) {
 	for i := 0; i < c.n(300); i++ {
 		r := c.fastaRec(400)
 		var wb bytes.Buffer
-		werr := r.Write(&wb)
-		mt, merr := r.MarshalText()
+		var werr, merr error
+		var mt []byte
+		pan := safe(func() string { werr = r.Write(&wb); mt, merr = r.MarshalText(); return "" })
 		oracle := ""
-		if werr != nil || merr != nil {
+		if pan == "PANIC" {
+			oracle = "Write/MarshalText panicked"
+		} else if werr != nil || merr != nil {
 			oracle = "Write/MarshalText returned an error"
 		} else if !bytes.Equal(wb.Bytes(), mt) {
 			oracle = "MarshalText and Write differ"
@@ -110,10 +113,13 @@ func genC02(c *Ctx) {
 	for i := 0; i < c.n(300); i++ {
 		r := c.fastqRec(300)
 		var wb bytes.Buffer
-		werr := r.Write(&wb)
-		mt, merr := r.MarshalText()
+		var werr, merr error
+		var mt []byte
+		pan := safe(func() string { werr = r.Write(&wb); mt, merr = r.MarshalText(); return "" })
 		oracle := ""
-		if werr != nil || merr != nil || !bytes.Equal(wb.Bytes(), mt) {
+		if pan == "PANIC" {
+			oracle = "Write/MarshalText panicked"
+		} else if werr != nil || merr != nil || !bytes.Equal(wb.Bytes(), mt) {
 			oracle = "MarshalText and Write differ or fail"
 		} else if ls := bytes.Split(mt, []byte("\n")); len(ls) != 5 || len(ls[4]) != 0 ||
 			!bytes.Equal(ls[0], append([]byte("@"), r.Name...)) || !bytes.Equal(ls[1], r.Sequence) ||
